@@ -230,6 +230,31 @@ Fixpoint run (q : quirks) (s : mserver) (c : cache) (rs : list mreq) : list (N *
   | r :: t => let '(o, c') := search q s c r in serve s o :: run q s c' t
   end.
 
+(** request sequences with reloads in between: [Some g] before a request = the server
+    is reloaded with generation [g] of the spec first (mux.reload builds a new
+    muxInstance: new rule/path/filter objects and an EMPTY route cache) *)
+Definition mstep := (option nat * mreq)%type.
+
+Definition after_reload (gens : list mserver) (s : mserver) (c : cache) (rl : option nat) : mserver * cache :=
+  match rl with Some g => (nth g gens s, []) | None => (s, c) end.
+
+Fixpoint run_steps (q : quirks) (gens : list mserver) (s : mserver) (c : cache) (steps : list mstep)
+  : list (N * N) :=
+  match steps with
+  | [] => []
+  | (rl, r) :: t =>
+      let '(s1, c1) := after_reload gens s c rl in
+      let '(o, c2) := search q s1 c1 r in
+      serve s1 o :: run_steps q gens s1 c2 t
+  end.
+
+(** the server in force at each step *)
+Fixpoint servers_of (gens : list mserver) (s : mserver) (steps : list mstep) : list mserver :=
+  match steps with
+  | [] => []
+  | (rl, _) :: t => let s1 := fst (after_reload gens s [] rl) in s1 :: servers_of gens s1 t
+  end.
+
 (** the same request on a server without a cache *)
 Definition no_hit (r : mreq) : mreq :=
   {| rq_ip := rq_ip r; rq_key := rq_key r; rq_hit := false; rq_m := rq_m r |}.
